@@ -442,7 +442,7 @@ hist_cases = st.fixed_dictionaries({"in_collection": st.booleans(), "ops": st.li
 
 
 def checks(tier):
-    n = {"quick": (5000, 1600, 2000, 1600), "thorough": (200000, 40000, 60000, 60000)}.get(tier, (10, 10, 10, 10))
+    n = {"quick": (5000, 1600, 2000, 1600), "thorough": (50000, 16000, 20000, 16000)}.get(tier, (10, 10, 10, 10))
     return [
         Check("expressions", fn_expr, strategy=expr_cases(), examples=n[0]),
         Check("function_links", fn_funclink, strategy=func_cases(), examples=n[1]),
